@@ -90,6 +90,35 @@ def shrink(mod, case, res, budget_s=60):
     return cur, cur_res, shrunk
 
 
+def generic_search(mod, tier, seed, known, budget_s=240):
+    """The correspondence broke but no generated case violates the property's predicate: look further for a concrete
+    failing input - fresh batches of generated cases under other seeds, evaluated the same way - within a time budget."""
+    if getattr(mod, "generate", None):
+        return None
+    t0 = time.time()
+    k = 0
+    while time.time() - t0 < budget_s and k < 6:
+        k += 1
+        s2 = seed + 7919 * k
+        try:
+            cs = core.run_harness(mod.HARNESS, seed=s2, n=mod.N[tier], extra=getattr(mod, "HARNESS_EXTRA", []),
+                                  timeout=getattr(mod, "HARNESS_TIMEOUT", 1800))
+            for fm in families(mod).values():
+                cs += core.run_harness(fm.HARNESS, seed=s2, n=fm.N[tier], extra=getattr(fm, "HARNESS_EXTRA", []))
+            keep = getattr(mod, "keep", lambda c: True)
+            cs = [c for c in cs if keep(c)]
+            rs = evaluate(mod, cs)
+        except Exception:
+            return None
+        for c, r in zip(cs, rs):
+            if r["verdict"] in ("PREDFAIL", "MODELPREDFAIL"):
+                key = finding_key(mod, c, r)
+                if key is not None and key in known:
+                    continue
+                return c, r
+    return None
+
+
 def same_clause(a, b):
     if a["verdict"] == "MISMATCH":
         return True
@@ -200,6 +229,8 @@ def standard_check(mod, tier, seed, replay=None):
         search = getattr(mod, "search_failing", None)
         if search:
             found = search(mism, seed)
+        else:
+            found = generic_search(mod, tier, seed, known)
         if found:
             c, r = found
             path = core.write_replay(pid, {"property": pid, "kind": "predicate", "clause": r["detail"],
